@@ -21,9 +21,10 @@ def E(name, params, ret, body, api="", group="prop"):
 class Ctx:
     """one build (configuration + extra wrappers) and cached analyses"""
 
-    def __init__(self, config, extra=(), only=None, lowbits_canon=False, partition_ops=(), summaries=False):
+    def __init__(self, config, extra=(), only=None, lowbits_canon=False, partition_ops=(), summaries=False, track_mono=False):
         self.config = config
         self.summaries = summaries
+        self.track_mono = track_mono
         self.lowbits_canon = lowbits_canon
         self.partition_ops = tuple(partition_ops)
         self.built = runner.build(config, extra_entries=list(extra), only=only)
@@ -40,7 +41,7 @@ class Ctx:
         res, alarms, stats, an = runner.analyze_entry(self.built, name, boxes=boxes, rnd=random.Random(seed),
                                                       refine_depth=1 if refine else 0, want_paths=True,
                                                       opts={"lowbits_canon": self.lowbits_canon, "partition_ops": self.partition_ops,
-                                                            "summaries": self.summaries})
+                                                            "summaries": self.summaries, "track_mono": self.track_mono})
         r = Run(self, name, ent, boxes, res, alarms, stats, an)
         self.cache[key] = r
         return r
@@ -468,3 +469,77 @@ def check_bool(V, run, spec_truth, oracle_bad, clause, rnd=None, site=None):
                         rp(run, args, clause))
         else:
             V.inconc("%s: '%s' not proved on path %s (%s)" % (run.name, clause, describe_path(p), why))
+
+
+# ------------------------------------------------------------------ exact monotonicity from direction tags
+def check_monotone(V, run, lo, hi, clause, site, direction=1):
+    """x < y in [lo,hi]  =>  f(x) <= f(y) (direction=1) for a one-parameter wrapper analysed with track_mono:
+      (1) every path's returned value carries the direction tag (fxai.interp.tag_mono: composition of operations that are
+          monotone on the path - sums, products of sign-definite factors, shifts, divisions by constants, conversions,
+          correctly rounded float operations, sqrt, the verified isqrt summary);
+      (2) the parameter boxes of the paths, sorted, overlap at most in their end points and leave no gap, so each path's
+          actual domain is its open box plus possibly the end points;
+      (3) at every junction the values at the (up to four) arguments around it, obtained by constant propagation, are in order.
+    A junction out of order is a violation with those two arguments as witness."""
+    from fxai import pipeline as P
+    cfg = run.ctx.config
+    paths = [p for p in run.paths if p.state.bounds["p0"][1] >= lo and p.state.bounds["p0"][0] <= hi]
+    if not paths:
+        V.broke("%s [%s]: no path on [%d,%d]" % (run.name, cfg, lo, hi))
+        return False
+    paths.sort(key=lambda p: p.state.bounds["p0"])
+    ok_all = True
+    for p in paths:
+        a, b = p.state.bounds["p0"]
+        ok = p.mono in (direction, 0) or a == b
+        V.oblige(ok)
+        if not ok:
+            ok_all = False
+            V.inconc("%s [%s]: the value returned on the path with argument box [%d,%d] is not established to be monotone (%s): %s" % (
+                run.name, cfg, a, b, p.mono, describe_path(p)["ret"][:160]))
+    pts = set()
+    prev = None
+    for p in paths:
+        a, b = p.state.bounds["p0"]
+        a, b = max(a, lo), min(b, hi)
+        if prev is not None:
+            okj = prev <= a <= prev + 1
+            V.oblige(okj)
+            if not okj:
+                ok_all = False
+                V.inconc("%s [%s]: argument boxes of the paths overlap or leave a gap around %d..%d: path domains are not intervals" % (run.name, cfg, prev, a))
+            for q in (prev - 1, prev, a, a + 1):
+                if lo <= q <= hi:
+                    pts.add(q)
+        prev = b
+    pts.add(lo)
+    pts.add(hi)
+    vals = {}
+    for q in sorted(pts):
+        rs = run.an.run(_mono_init(run, q))
+        vs = set(ret_rng(z) for z in rs.paths)
+        if len(vs) == 1 and not rs.alarms:
+            l_, h_ = next(iter(vs))
+            if l_ == h_:
+                vals[q] = l_
+        if q not in vals:
+            ok_all = False
+            V.oblige(False)
+            V.inconc("%s [%s]: value at the junction argument %d not decided by constant propagation" % (run.name, cfg, q))
+    seq = sorted(vals)
+    for q0, q1 in zip(seq, seq[1:]):
+        if q1 - q0 > 1:
+            continue        # separated by the interior of one path
+        okv = (vals[q0] <= vals[q1]) if direction > 0 else (vals[q0] >= vals[q1])
+        V.oblige(okv)
+        if not okv:
+            ok_all = False
+            V.violation(clause, site, "%s(%d) = %d but %s(%d) = %d [%s]" % (run.name, q0, vals[q0], run.name, q1, vals[q1], cfg),
+                        rp(run, (q0,), clause + ": compare with argument %d" % q1))
+    V.cover.setdefault("monotone", {})[run.name + "/" + cfg] = {"paths": len(paths), "junction_arguments": len(pts)}
+    return ok_all
+
+
+def _mono_init(run, q):
+    from fxai import pipeline as P
+    return P.init_state(run.an.fn, [("i", q, q)])
